@@ -25,7 +25,9 @@ from vp.qx import E_TYPE, E_UNITS, E_VALUE, E_OTHER
 
 EXPONENTS = [Fraction(n) for n in (-3, -2, -1, 1, 2, 3)] + [Fraction(1, 2), Fraction(-1, 2), Fraction(1, 3),
     Fraction(3, 2), Fraction(-3, 2)]
+# including exact and Float magnitudes far outside the range of a double: finite and non-zero, hence NOT "any dimension"
 MAGS = [1, -1, 2, Rational(1, 3), Float(0.5), Float(-2.25), 10**30, Rational(1, 10**30), Float(1e-3), 7]
+EXTREME = [10**400, Rational(1, 10**400), Float("1e306"), Float("1e-322"), Float("1.7e308")]   # used sparingly: large literals are slow in Coq
 SPECIAL = [S.Zero, oo, -oo, nan]
 ODD = [zoo, Float(0.0), I]
 
@@ -99,7 +101,7 @@ def gen_arg(rng, vec, ang):
     """Returns (python object given to the gate, description, kind)."""
     from symplyphysics import Quantity, Symbol, angle_type, clone_as_symbol  # pylint: disable=import-outside-toplevel
     r = rng.random()
-    mag = rng.choice(MAGS)
+    mag = rng.choice(EXTREME) if rng.random() < 0.03 else rng.choice(MAGS)
     if r < 0.10:
         v = rng.choice(SPECIAL + ODD + MAGS)
         return v, f"bare {v!r}", "number"
@@ -384,7 +386,7 @@ def stream_history(ctx, n):
             exp, xdesc = gen_expected(rng, xvec, xang)
             elit = gexp_lit(exp)
             unit = unit_expr_from_vec(vec, 0, rng)
-            seq = [Quantity(S.Zero, dimension=adim), Quantity(rng.choice(MAGS) * unit), Quantity(3), Quantity(oo, dimension=adim),
+            seq = [Quantity(S.Zero, dimension=adim), Quantity(rng.choice(EXTREME if rng.random() < 0.15 else MAGS) * unit), Quantity(3), Quantity(oo, dimension=adim),
                 Quantity(rng.choice(MAGS) * unit), 5, Quantity(0 * unit), Quantity(rng.choice(MAGS) * unit)]
             rng.shuffle(seq)
             seq = seq[:rng.choice([3, 4, 5, 6])]
@@ -683,8 +685,11 @@ def run(ctx):
 
     n1 = ctx.pick(2500, 30000)
     cases, hist = stream_gate1(ctx, n1)
+    ctx.log("gate1 stream generated")
     bad = coqrun.eval_cases(ctx, "gate1", qx.PREAMBLE, [c["lit"] for c in cases],
-        "fun c : garg * garg * verdict => verdict_eqb (gate1 (fst (fst c)) (snd (fst c))) (snd c)")
+        "fun c : garg * garg * verdict => verdict_eqb (gate1 (fst (fst c)) (snd (fst c))) (snd c)",
+        case_type="garg * garg * verdict")
+    ctx.log("gate1 stream evaluated in Coq")
     decide_disagreements(ctx, cases, bad, "gate1")
     distinct = len({c["lit"] for c in cases if c["kind"] != "number" or c["impl"] is not None})
     ctx.evaluated(len(cases), distinct)
@@ -693,10 +698,12 @@ def run(ctx):
 
     n2 = ctx.pick(800, 8000)
     calls, hist2 = stream_calls(ctx, n2)
+    ctx.log("calls stream generated")
     bad2 = coqrun.eval_cases(ctx, "calls", qx.PREAMBLE, [c["lit"] for c in calls],
         "fun c : (list pname * list (pname * gspec) * option gspec) * (list gval * list (pname * gval) * gval) * verdict => "
         "let '(ps, gs, o) := fst (fst c) in let '(pos, kw, ret) := snd (fst c) in "
-        "verdict_eqb (guarded_call ps gs o pos kw ret) (snd c)")
+        "verdict_eqb (guarded_call ps gs o pos kw ret) (snd c)",
+        case_type="(list pname * list (pname * gspec) * option gspec) * (list gval * list (pname * gval) * gval) * verdict", per_file=200)
     decide_disagreements(ctx, calls, bad2, "calls")
     ctx.evaluated(len(calls), len({c["lit"] for c in calls}))
     for c in calls[:2]:
@@ -729,7 +736,9 @@ def run(ctx):
     ctx.coverage["verdict_histogram"] = {f"{k[0]}:{k[1]}": v for k, v in sorted(hist.items(), key=str)}
     ctx.coverage["disagreements"] = len(bad) + len(bad2) + len(bad3) + len(bad4)
 
+    ctx.log("streams done")
     catalogue(ctx)
+    ctx.log("catalogue done")
     ctx.coverage["rule"] = ("gate1: seeded (actual, declared) pairs over the 7 base dimensions + angle with exponents in "
         "{-3..3, +-1/2, 1/3, +-3/2}, written through base and derived units/dimensions, prefixes, magnitudes incl. 0, +-oo, nan, "
         "zoo, 0.0, 1e+-30; calls: generated guarded functions (validate_input/output/output_same; scalar, list, tuple specs; "
